@@ -25,10 +25,23 @@ def _split_cmp0(t):
     return None
 
 
+def simp(t):
+    """x & 1 -> x, x | 0 -> x (constant-neutral operands of boolean connectives)."""
+    if isinstance(t, Op) and t.op in ("&", "|", "and", "or") and len(t.args) == 2:
+        neutral = t.op in ("&", "and")
+        a, b = t.args
+        for x, y in ((a, b), (b, a)):
+            if isinstance(x, Const) and isinstance(x.v, (int, bool)) and not isinstance(y, Const) and bool(x.v) == neutral and \
+                    (x.v in (0, 1, True, False)):
+                return simp(y)
+    return t
+
+
 def literal(t):
     """Normalise a boolean term to (atom, polarity)."""
     pol = True
     while True:
+        t = simp(t)
         if isinstance(t, Op) and t.op in ("~", "not") and len(t.args) == 1:
             t = t.args[0]
             pol = not pol
